@@ -73,7 +73,9 @@ extern size_t mpt_stream_read(MPT_STRUCT(stream) *stream, size_t count, void *da
 			}
 			tchunk += curr;
 			
-			data = ((char *) data) + curr;
+			if (data) {
+				data = ((char *) data) + len;
+			}
 			continue;
 		}
 		if (flags & MPT_STREAMFLAG(ReadMap)) {
